@@ -35,6 +35,11 @@ def argv_of(rec, outdir):
 
 
 _n = [0]
+# accepted argument sets used as the EARLIER run of a history (larger than most judged runs, so that their files are longer)
+DECOYS = [('spa', '-n1 6 -n2 8 -n3 4 -pmin 3 -pmax 5 -t1 1.0 -t2 1.0 -skew 7 -lq 4 -uq 19 -llq 2 -lt 9 -luq 21 -twopl'),
+          ('hr', '-n1 7 -n2 4 -pmin 2 -pmax 4 -t1 1.0 -t2 0.5 -skew 9 -lq 2 -uq 11 -twopl'),
+          ('ha', '-n1 9 -n2 5 -pmin 3 -pmax 5 -t1 1.0 -skew 11 -lq 1 -uq 13'),
+          ('sm', '-n1 6 -pmin 4 -pmax 6 -t1 1.0 -t2 1.0 -skew 5 -twopl')]
 
 
 def run_generator(rec, seed):
@@ -47,6 +52,26 @@ def run_generator(rec, seed):
     base = os.path.join(common.subdir('gen-%d' % os.getpid()), 'r%d' % _n[0])
     os.makedirs(base)
     out = os.path.join(base, 'out', 'instances')       # two missing levels
+    if seed % 5 == 0:
+        # HISTORY: another accepted generator run (different type, counts, ties, skew, quota totals) precedes the judged one in the
+        # same process and - when the judged vector is a legal one - in the SAME output directory, with the same number of
+        # instances and (mostly) longer files.  Runs share nothing in the specification (MPGen: every run starts from ParseArgs;
+        # FinishFile makes k.txt BE the rendered text, it does not edit what was there), so the judged run's files must be what
+        # they would be without the earlier one.  Aimed at caches keyed by too little and at files overwritten in place.
+        decoy = DECOYS[(seed // 5) % len(DECOYS)]
+        if decoy[0] == rec.get('mp'):
+            decoy = DECOYS[(seed // 5 + 1) % len(DECOYS)]
+        same = bool(rec.get('accept')) and isinstance(rec.get('numinst'), int) and 1 <= rec['numinst'] <= 12
+        target = out if same else os.path.join(base, 'decoy')
+        try:
+            with impl.quiet():
+                Generator(('-numinst %d -o %s -mp %s' % (rec['numinst'] if same else 2, target, decoy[0])).split() + decoy[1].split())
+        except BaseException:  # noqa
+            pass
+        if not same:
+            shutil.rmtree(target, ignore_errors=True)
+        elif not (os.path.isdir(out) and sorted(os.listdir(out)) == sorted('%d.txt' % i for i in range(rec['numinst']))):
+            shutil.rmtree(os.path.join(base, 'out'), ignore_errors=True)       # the earlier run did not do what it should: fresh location
     random.seed(seed)
     np.random.seed(seed % (2 ** 32))
     res = {'argv': argv_of(rec, '<out>')}
@@ -66,6 +91,29 @@ def run_generator(rec, seed):
         for nme in names:
             with open(os.path.join(out, nme), 'rb') as f:
                 res['files'].append(list(f.read()))
+    if seed % 5 == 0 and res['outcome'] == 'ok':
+        # reference: the same vector with the same seeds in a fresh location and without an earlier run, twice; when the two
+        # reference runs agree (the generator is deterministic under the harness's seeding) the judged run must agree with them
+        refs = []
+        for j in (1, 2):
+            rout = os.path.join(base, 'ref%d' % j, 'instances')
+            random.seed(seed)
+            np.random.seed(seed % (2 ** 32))
+            try:
+                with impl.quiet():
+                    Generator(argv_of(rec, rout))
+                names = sorted(os.listdir(rout), key=lambda n: (len(n), n))
+                refs.append((names, [list(open(os.path.join(rout, n), 'rb').read()) for n in names]))
+            except BaseException:  # noqa
+                refs.append(None)
+        if refs[0] is not None and refs[0] == refs[1]:
+            same_out = (res['listing'], res['files']) == refs[0]
+            res['history'] = {'agrees': same_out}
+            if not same_out:
+                k = next((i for i, (a, b) in enumerate(zip(res['files'], refs[0][1])) if a != b), None)
+                res['history']['what'] = ('listing %s, alone %s' % (res['listing'], refs[0][0]) if k is None else
+                                          'file %s after an earlier run: %r; the same run alone: %r'
+                                          % (res['listing'][k], bytes(res['files'][k]).decode('latin-1'), bytes(refs[0][1][k]).decode('latin-1')))
     shutil.rmtree(base, ignore_errors=True)
     return res
 
